@@ -83,6 +83,23 @@ class Program:
         self._load()
         self._index()
 
+    def derive(self, overrides: dict) -> "Program":
+        """A program that differs from this one only in the given modules (rel path -> source).
+        Unchanged modules share their parsed, annotated trees (they are treated as read-only)."""
+        p = Program.__new__(Program)
+        p.root = self.root
+        p.overrides = dict(overrides)
+        p.modules = dict(self.modules)
+        p.functions = {}
+        p.classes = {}
+        p.class_by_name = {}
+        p.extra_files = dict(self.extra_files)
+        for name, m in list(self.modules.items()):
+            if m.rel in overrides:
+                p._add_module(m.path, m.rel, name)
+        p._index()
+        return p
+
     # ---- loading -----------------------------------------------------
     def _load(self) -> None:
         pkgdir = os.path.join(self.root, PKG)
